@@ -18,7 +18,7 @@ NATIVE = [
          args={"quick": [], "thorough": []}, exhaustive=True,
          bound="EVERY combination of 13 signals (silence, full-scale square waves, impulses, DC offsets, white noise, zero padding, ramp, step) x int16|float samples x "
                "transform dct|legacy|htk x cepstra|logspec|smoothspec x remove_noise x remove_dc x lifter 0|22 (x cmn live|batch|none, varnorm for the cepstral configurations): 3 744 runs of 0.5 s "
-               "through the real fe_process / fe_end / feat_s2mfc2feat_live / cmn text export-import; every value checked with isfinite()"),
+               "through the real fe_process / fe_end / feat_s2mfc2feat_live / cmn text export-import; every value checked with isfinite(); plus all 64 histories of three utterances from {silence, speech} x {full-utterance call, streamed} on a real decoder (state finite after each)"),
 ]
 ASSUMPTIONS = [
     "path scores: the HMM invariant WF_HMM (scores WORST_SCORE or in [WORST_SCORE + 2^20, 0], senone scores in [0, 32767]) is the precondition; signed-overflow obligations are switched on in these proofs",
